@@ -523,18 +523,70 @@ Proof.
   rewrite (le_roundtrip 4 n Hn). reflexivity.
 Qed.
 
+Lemma attr_decode_entries m body :
+  len32 m = true -> amap_sorted m = true -> forallb wf_entry m = true -> write_entries m = Ok body ->
+  attr_decode (write_u32 (N.of_nat (length m)) ++ body) = Ok (norm m).
+Proof.
+  intros Hlen Hsort Hent Hb.
+  assert (Hn : N.of_nat (length m) < 4294967296) by (unfold len32 in Hlen; now apply N.ltb_lt).
+  unfold attr_decode, read_attributes. rewrite (rd_option_u32 _ body Hn).
+  pose proof (read_entries_app m (S (length body)) [] body [] Hent Hsort) as R.
+  rewrite app_nil_r in R. rewrite R; [reflexivity| | exact Hb | ].
+  - intros; reflexivity.
+  - pose proof (write_entries_length _ _ Hb) as L. clear -L. lia.
+Qed.
+
 Theorem attr_roundtrip m b :
   wf_amap m = true -> attr_encode m = Ok b -> attr_decode b = Ok (norm m).
 Proof.
   unfold wf_amap. intros Hwf Henc. apply andb_true_iff in Hwf. destruct Hwf as [Hwf Hent].
   apply andb_true_iff in Hwf. destruct Hwf as [Hlen Hsort].
-  destruct m as [|e m]; [cbn in Henc; injection Henc as <-; reflexivity|].
-  unfold attr_encode in Henc. destruct (write_entries (e :: m)) as [body| | |] eqn:Hb; try discriminate.
-  cbn [rbind] in Henc. apply ok_inj in Henc. subst b. rewrite (len32_as_u32 _ Hlen).
-  assert (Hn : N.of_nat (length (e :: m)) < 4294967296) by (unfold len32 in Hlen; now apply N.ltb_lt).
-  unfold attr_decode, read_attributes. rewrite (rd_option_u32 _ body Hn).
-  pose proof (read_entries_app (e :: m) (S (length body)) [] body [] Hent Hsort) as R.
-  rewrite app_nil_r in R. rewrite R; [reflexivity| | exact Hb | ].
-  - intros; reflexivity.
-  - pose proof (write_entries_length _ _ Hb) as L. clear -L. lia.
+  destruct m as [|e m].
+  - apply ok_inj in Henc. subst b. reflexivity.
+  - unfold attr_encode in Henc. destruct (write_entries (e :: m)) as [body| | |] eqn:Hb; try discriminate.
+    cbn [rbind] in Henc. apply ok_inj in Henc. subst b. rewrite (len32_as_u32 _ Hlen).
+    now apply attr_decode_entries.
+Qed.
+
+(* ================================================================ the document's rotation table *)
+From RbxVerif Require Import AttrSpec.
+
+Lemma spec_rot_lookup_none id t : ~ In id (List.map fst t) -> spec_rot_of_id id t = None.
+Proof.
+  induction t as [|[k m'] r IH]; cbn; [easy|]. intros H.
+  destruct (N.eqb_spec id k) as [->|Hne]; [exfalso; apply H; now left|]. apply IH. intros Hin. apply H. now right.
+Qed.
+
+Lemma spec_vec3_eqb_eq a b : AttrSpec.vec3_eqb a b = true -> a = b.
+Proof.
+  unfold AttrSpec.vec3_eqb. intros H. apply andb_true_iff in H. destruct H as [H Hz]. apply andb_true_iff in H. destruct H as [Hx Hy].
+  apply N.eqb_eq in Hx, Hy, Hz. destruct a, b. cbn in *. now subst.
+Qed.
+Lemma spec_mat3_eqb_eq a b : AttrSpec.mat3_eqb a b = true -> a = b.
+Proof.
+  unfold AttrSpec.mat3_eqb. intros H. apply andb_true_iff in H. destruct H as [H Hz]. apply andb_true_iff in H. destruct H as [Hx Hy].
+  apply spec_vec3_eqb_eq in Hx, Hy, Hz. destruct a, b. cbn in *. now subst.
+Qed.
+
+(* docs/attributes.md lists Euler angles; read as Ry * Rx * Rz they are exactly the 24 matrices of
+   Matrix3::from_basic_rotation_id, id by id, and no other id is defined by either *)
+Theorem spec_rotation_table_agrees : forall id,
+  spec_rot_of_id id spec_rotation_table = from_basic_rotation_id id.
+Proof.
+  intros id. destruct (N.ltb_spec id 36) as [Hlt|Hge].
+  - assert (H : forallb (fun k => match spec_rot_of_id (N.of_nat k) spec_rotation_table, from_basic_rotation_id (N.of_nat k) with
+                                  | Some a, Some b => AttrSpec.mat3_eqb a b | None, None => true | _, _ => false end)
+                        (seq 0 36) = true) by (vm_compute; reflexivity).
+    rewrite forallb_forall in H. specialize (H (N.to_nat id)).
+    rewrite Nnat.N2Nat.id in H.
+    assert (Hin : In (N.to_nat id) (seq 0 36)) by (apply in_seq; lia).
+    specialize (H Hin).
+    destruct (spec_rot_of_id id spec_rotation_table) as [a|], (from_basic_rotation_id id) as [b|]; try discriminate; [|reflexivity].
+    f_equal. now apply spec_mat3_eqb_eq.
+  - assert (K1 : forallb (fun k => N.ltb k 36) (List.map fst spec_rotation_table) = true) by (vm_compute; reflexivity).
+    assert (K2 : forallb (fun k => N.ltb k 36) (List.map fst rotation_table) = true) by (vm_compute; reflexivity).
+    rewrite forallb_forall in K1, K2.
+    rewrite spec_rot_lookup_none; [|intros Hin; specialize (K1 _ Hin); apply N.ltb_lt in K1; lia].
+    unfold from_basic_rotation_id. rewrite rot_lookup_none; [reflexivity|].
+    intros Hin. specialize (K2 _ Hin). apply N.ltb_lt in K2. lia.
 Qed.
